@@ -73,6 +73,12 @@ def _strategy(draw):
                 # coarser asset frequency: one variable over several steps (no price series involved)
                 a["start"] = a["end"] = None
                 gen.coarsen(draw, cx, a)
+            elif tl.uniform(g) and T >= 4 and not a.get("no_simult") and a.get("max_store_duration") is None and draw(st.integers(0, 4)) == 0:
+                # periodic storage: one variable for the same position of every period (present and future steps)
+                a["start"] = a["end"] = None
+                a["end_level"] = a["start_level"]
+                a["inflow"] = 0.0
+                gen.periodize(draw, cx, a)
         if a.get("min_take") or a.get("max_take"):
             a["start"] = a["end"] = None
         assets.append(a)
